@@ -108,17 +108,31 @@ Inductive desc : Type :=
 | DNum (neg hex : bool) (digs : list Z) (dp e : Z).
 
 (* nearest double (ties to even) of the positive rational num/den; the flag is
-   strconv's ErrRange (rounded value beyond the largest double). *)
+   strconv's ErrRange (rounded value beyond the largest double).  One division at a
+   fine exponent e0 (quotient in (2^52, 2^54)), then the usual shift with a sticky
+   remainder to the final exponent (one more for a 54-bit quotient; -1074 for
+   subnormals). *)
 Definition round_pos (num den : Z) : fnum * bool :=
   let e0 := Z.log2 num - Z.log2 den - 53 in
-  let mant0 := if 0 <=? e0 then num / (den * 2 ^ e0) else (num * 2 ^ (- e0)) / den in
+  (* num/den / 2^e0 = mant0 + (r2/2)/d0,  0 <= r2/2 < d0 *)
+  let '(mant0, r2, d0) :=
+    if 0 <=? e0 then
+      (if den =? 1 then
+         let q := Z.shiftr num e0 in (q, 2 * (num - Z.shiftl q e0), Z.shiftl 1 e0)
+       else let d := Z.shiftl den e0 in (num / d, 2 * (num mod d), d))
+    else let n := Z.shiftl num (- e0) in (n / den, 2 * (n mod den), den) in
   let e1 := if two53 <=? mant0 then e0 + 1 else e0 in
   let e := Z.max e1 (-1074) in
-  let n' := if 0 <=? e then num else num * 2 ^ (- e) in
-  let d' := if 0 <=? e then den * 2 ^ e else den in
-  let mant := n' / d' in
-  let rem := n' mod d' in
-  let up := (d' <? 2 * rem) || ((d' =? 2 * rem) && Z.odd mant) in
+  let sh := e - e0 in
+  let mant := Z.shiftr mant0 sh in
+  let low := mant0 - Z.shiftl mant sh in
+  let cmp_half :=
+    if sh =? 0 then Z.compare r2 d0
+    else match Z.compare low (Z.shiftl 1 (sh - 1)) with
+         | Eq => if r2 =? 0 then Eq else Gt
+         | c => c
+         end in
+  let up := match cmp_half with Gt => true | Eq => Z.odd mant | Lt => false end in
   let mant' := if up then mant + 1 else mant in
   if mant' =? 0 then (FFin 0 0, false)
   else if 1024 <? e + Z.log2 mant' + 1 then (FInf false, true)
@@ -480,22 +494,35 @@ Definition parse_float_prefix (s : bytes) : res fnum :=
 Definition strip_trailing_zeros (d : list Z) : list Z :=
   rev (snd (span (fun x => x =? 0) (rev d))).
 
-(* |x| = m * 2^e, m > 0, rounded half-even to P significant decimal digits:
+(* floor and doubled remainder of m * 2^e * 10^t  (m > 0):  (q, 2*rem, den) with
+   m * 2^e * 10^t = q + rem/den, 0 <= rem < den.  Powers of two are shifts. *)
+Definition scaled (m e t : Z) : Z * Z * Z :=
+  if 0 <=? e then
+    let A := Z.shiftl m e in
+    if 0 <=? t then (A * 10 ^ t, 0, 1)
+    else let B := 10 ^ (- t) in (A / B, 2 * (A mod B), B)
+  else
+    let k := - e in
+    if 0 <=? t then
+      let X := m * 10 ^ t in
+      let q := Z.shiftr X k in
+      (q, 2 * (X - Z.shiftl q k), Z.shiftl 1 k)
+    else let B := Z.shiftl (10 ^ (- t)) k in (m / B, 2 * (m mod B), B).
+
+(* floor(log10 (m*2^e)) + 1 up to +-1, from the binary logarithm; corrected in [round_sig] *)
+Definition dp_estimate (m e : Z) : Z := ((Z.log2 m + e) * 30103) / 100000 + 1.
+
+(* |x| = m * 2^e, m > 0, rounded half-even to P >= 1 significant decimal digits:
    (digits without trailing zeros, dp) with |x| ~ 0.d1d2.. * 10^dp   (strconv decimalSlice) *)
 Definition round_sig (m e P : Z) : list Z * Z :=
-  let N := if 0 <=? e then m * 2 ^ e else m * 5 ^ (- e) in
-  let sh := if 0 <=? e then 0 else e in
-  let D0 := ndigits N in
-  let k := zlen D0 in
-  if k <=? P then (strip_trailing_zeros D0, k + sh)
-  else
-    let cut := k - P in
-    let pw := 10 ^ cut in
-    let q := N / pw in
-    let r := N mod pw in
-    let up := (pw <? 2 * r) || ((pw =? 2 * r) && Z.odd q) in
-    let D1 := ndigits (if up then q + 1 else q) in
-    (strip_trailing_zeros D1, zlen D1 + cut + sh).
+  let dp0 := dp_estimate m e in
+  let s0 := scaled m e (P - dp0) in
+  let q0 := fst (fst s0) in
+  let dp := if q0 <? 10 ^ (P - 1) then dp0 - 1 else if 10 ^ P <=? q0 then dp0 + 1 else dp0 in
+  let '(q, r2, den) := if dp =? dp0 then s0 else scaled m e (P - dp) in
+  let up := (den <? r2) || ((den =? r2) && Z.odd q) in
+  let D := ndigits (if up then q + 1 else q) in
+  (strip_trailing_zeros D, dp + (zlen D - P)).
 
 Definition digit_at (D : list Z) (j : Z) : Z :=
   if (0 <=? j) && (j <? zlen D) then nth (Z.to_nat j) D 0 else 0.
